@@ -206,6 +206,7 @@ func (m c03) check(c *fw.Ctx, k *delCase) {
 		c.ViolateX(op+":"+panicClass(site, val), enc, "no panic", fmt.Sprint(val), stack, nil)
 		return
 	}
+	c.Hold(enc, func() string { return heldSeq(res) })
 	if !bytes.Equal(res.Bytes(), want) {
 		c.Violate(op+":residues", enc, string(want), string(res.Bytes()))
 		return
